@@ -70,7 +70,16 @@ def translate(repo):
     if not m_del:
         raise TranslateError("~SocketServer: `delete _thread` not found: " + fd[:300])
     before = fd[:m_del.start()]
-    joins = "_thread->join();" in before and "kill(" not in before
+    # the join must be UNCONDITIONAL on the path to `delete _thread`: same brace depth as the delete, no `return` in between,
+    # and no guard other than `if(_thread)` around both (`if(_running) { join }` followed by the delete is not a join)
+    def depth_at(txt, pos):
+        return txt.count("{", 0, pos) - txt.count("}", 0, pos)
+    m_join = re.search(r"_thread->join\(\);", before)
+    joins = False
+    if m_join and "kill(" not in before:
+        dj, dd = depth_at(fd, m_join.start()), depth_at(fd, m_del.start())
+        guards = re.findall(r"\bif\s*\(([^)]*)\)", before)
+        joins = dj == dd and "return" not in fd[m_join.start():m_del.start()] and all(g.strip() in ("_thread", "_thread != 0", "_thread != NULL") for g in guards)
     B = lambda x: "true" if x else "false"
     out = "/- GENERATED by tools/props/c14.py from src/SocketServer.cpp — do not edit -/\nnamespace Gen.Sock\n\n"
     out += "/-- `startLoop`: a failed `accept()` (`client.handle() < 0`) is skipped before `++_numClients` -/\ndef skipsFailed : Bool := %s\n\n" % B(skips)
